@@ -118,7 +118,7 @@ func famC01(t *testing.T) []netFamily {
 }
 
 func TestC01(t *testing.T) {
-	runNetProperty(t, "C01", []string{"C01:"}, famC01(t), tierN(6, 120),
+	runNetProperty(t, "C01", []string{"C01:"}, famC01(t), tierN(24, 400),
 		genCfg{Chains: 3, Ops: 40, Perturb: 45, Clean: true, Rules: true},
 		"directed: a committed packet (direct and relayed) presented with every single-field alteration, every wrong proof kind/height/chain; random: seeded histories of send/update/recv/ack/clean/rules on 3 real chains with 45% altered relayer messages; non-trivial = history with accepted and rejected messages; distinct by full operation list")
 }
@@ -167,7 +167,7 @@ func famC02(t *testing.T) []netFamily {
 }
 
 func TestC02(t *testing.T) {
-	runNetProperty(t, "C02", []string{"C02:"}, famC02(t), tierN(6, 120),
+	runNetProperty(t, "C02", []string{"C02:"}, famC02(t), tierN(24, 400),
 		genCfg{Chains: 3, Ops: 45, Perturb: 15, Clean: true, Rules: true},
 		"directed: duplicates immediately / after ack / after the receipt was cleaned / at the clean point / on the relay hop / same key other data; random: seeded histories with replays; non-trivial = history with accepted and rejected messages")
 }
@@ -224,7 +224,7 @@ func famC03(t *testing.T) []netFamily {
 }
 
 func TestC03(t *testing.T) {
-	runNetProperty(t, "C03", []string{"C03:"}, famC03(t), tierN(6, 120),
+	runNetProperty(t, "C03", []string{"C03:"}, famC03(t), tierN(24, 400),
 		genCfg{Chains: 3, Ops: 45, Perturb: 35, Clean: true, Rules: true},
 		"directed: forged/altered/misdirected/premature/repeated acknowledgements, direct and through a relay; random: seeded histories; non-trivial = history with accepted and rejected messages")
 }
@@ -257,7 +257,7 @@ func famC09(t *testing.T) []netFamily {
 }
 
 func TestC09(t *testing.T) {
-	runNetProperty(t, "C09", []string{"C09:"}, famC09(t), tierN(6, 120),
+	runNetProperty(t, "C09", []string{"C09:"}, famC09(t), tierN(24, 400),
 		genCfg{Chains: 3, Ops: 40, Perturb: 15, Clean: true, Rules: false},
 		"directed: every failing send kind interleaved with successful sends to two destinations and inbound traffic; random: seeded histories (about a third of the sends malformed); non-trivial = history with accepted and rejected messages")
 }
@@ -324,7 +324,7 @@ func famC10(t *testing.T) []netFamily {
 }
 
 func TestC10(t *testing.T) {
-	runNetProperty(t, "C10", []string{"C10:"}, famC10(t), tierN(6, 120),
+	runNetProperty(t, "C10", []string{"C10:"}, famC10(t), tierN(24, 400),
 		genCfg{Chains: 3, Ops: 50, Perturb: 10, Clean: true, Rules: true},
 		"directed: cleans below/at/above the clean point and max-ack, past unacknowledged packets, repeated, out-of-order acks around N, destination before source, through a relay, replays after clean; random: seeded histories with 7% clean operations; non-trivial = history with accepted and rejected messages")
 }
@@ -374,7 +374,7 @@ func famC11(t *testing.T) []netFamily {
 }
 
 func TestC11(t *testing.T) {
-	runNetProperty(t, "C11", []string{"C11:"}, famC11(t), tierN(6, 120),
+	runNetProperty(t, "C11", []string{"C11:"}, famC11(t), tierN(24, 400),
 		genCfg{Chains: 3, Ops: 45, Perturb: 15, Clean: false, Rules: true},
 		"directed: rule sets x ports x destination known/unknown, full relay life cycle incl. replays; random: seeded histories with rule changes; non-trivial = history with accepted and rejected messages")
 }
@@ -407,7 +407,7 @@ func famC13(t *testing.T) []netFamily {
 }
 
 func TestC13(t *testing.T) {
-	runNetProperty(t, "C13", []string{"C13:"}, famC13(t), tierN(6, 120),
+	runNetProperty(t, "C13", []string{"C13:"}, famC13(t), tierN(24, 400),
 		genCfg{Chains: 3, Ops: 40, Perturb: 60, Clean: false, Rules: true},
 		"directed: every alteration of port / relay chain of a committed direct and relayed packet in receive messages at every chain; random: seeded histories with 60% altered relayer messages; non-trivial = history with accepted and rejected messages")
 }
